@@ -38,6 +38,8 @@ pub enum Act {
     DeleteKey,
     /// environment: lose one data pack (so that repair has something to do)
     LosePack,
+    /// environment: a pack file no index lists appears (left by an interrupted or still running backup)
+    PlantUnindexedPack,
 }
 
 #[derive(Clone)]
@@ -47,6 +49,7 @@ pub struct St {
     n: usize,
     keys_added: usize,
     damaged: bool,
+    orphan: bool,
 }
 
 pub struct C15 {
@@ -96,7 +99,7 @@ fn base(append_only: bool) -> St {
         let mut repo = env.open().expect("open");
         _ = repo.apply_config(&ConfigOptions::default().set_append_only(true)).expect("set append-only");
     }
-    St { store: env.store(), append_only, n: 3, keys_added: 0, damaged: false }
+    St { store: env.store(), append_only, n: 3, keys_added: 0, damaged: false, orphan: false }
 }
 
 impl SeqModel for C15 {
@@ -151,6 +154,9 @@ impl SeqModel for C15 {
         if !s.damaged {
             v.push(Act::LosePack);
         }
+        if !s.orphan {
+            v.push(Act::PlantUnindexedPack);
+        }
         v
     }
 
@@ -163,7 +169,7 @@ impl SeqModel for C15 {
 
     fn canon(&self, s: &St) -> String {
         let mut c = canon_store(&self.raw, &s.store);
-        c.push(format!("ao={} n={} keys={} damaged={}", s.append_only, s.n.min(4), s.keys_added, s.damaged));
+        c.push(format!("ao={} n={} keys={} damaged={} orphan={}", s.append_only, s.n.min(4), s.keys_added, s.damaged, s.orphan));
         c.join("\n")
     }
 
@@ -177,6 +183,12 @@ impl SeqModel for C15 {
         let before = protected(&s.store);
         let class = self.action_class(a);
         let is_dry = class.ends_with("/dry");
+        if matches!(a, Act::PlantUnindexedPack) {
+            let (pack, _) = vkit::decode::build_pack(&self.raw, &[(0, b"blob of a pack which no index lists".to_vec())], 4243);
+            n.store.put(FileType::Pack, &vkit::decode::id_of(&pack), pack.into());
+            n.orphan = true;
+            return Ok(n);
+        }
         if matches!(a, Act::LosePack) {
             // environment step, not a library operation
             if let Some((id, _)) = s.store.list(FileType::Pack).into_iter().find(|(id, _)| {
@@ -313,7 +325,7 @@ impl SeqModel for C15 {
                     }
                     Ok("key deleted".into())
                 }
-                Act::LosePack => unreachable!(),
+                Act::LosePack | Act::PlantUnindexedPack => unreachable!(),
             }
         })();
         if is_dry {
